@@ -35,7 +35,7 @@ ASSUMPTIONS = [
     "the slots are read through their name-mangled class attributes",
 ]
 TYPECHECK_OK = True  # every generated value conforms to its annotation: some shards run with RUNTIME_TYPE_CHECK on
-MUST_SEE = ["tagless_payload_recreated", "flag_only_dialect", "equal_but_distinct_source_objects", "faults_outside_the_exception_tree", "indented_json_with_options", "option_spelled_false", "raised_with_options", "failpoints_fired", "failpoint_nested", "default_after_fault", "bomb_positions", "corrupt_payloads", "option_subsets", "mappings_walked", "explorer_children_checked", "index_sources_checked", "deser_with_options", "repo_tests_slot_checks", "shared_options_object"]
+MUST_SEE = ["origin_object_made_of_placeholders", "source_dump_loaded_before_calls", "tagless_payload_recreated", "flag_only_dialect", "equal_but_distinct_source_objects", "faults_outside_the_exception_tree", "indented_json_with_options", "option_spelled_false", "raised_with_options", "failpoints_fired", "failpoint_nested", "default_after_fault", "bomb_positions", "corrupt_payloads", "option_subsets", "mappings_walked", "explorer_children_checked", "index_sources_checked", "deser_with_options", "repo_tests_slot_checks", "shared_options_object"]
 CONFIG = {
     "quick": {"shards": 16, "trees": 16, "subsets": 14, "failpoint_trees": 1, "watchdog_s": 600},
     "thorough": {"shards": 32, "trees": 40, "subsets": 48, "failpoint_trees": 4, "watchdog_s": 3400},
@@ -282,6 +282,10 @@ def run_shard(ctx):
         rng = ctx.rng(case)
         tg = G.TreeGen(rng, U, max_nodes=rng.choice([4, 9]), max_depth=4, max_width=3, share=0.0, twin=0.1, p_origin=0.7, hostile=0.05, exclude=(f"{P}Nested", f"{P}Meta", f"{P}Typed"))  # no (faithful) wire form: Any-typed nested tuples / value objects, a lossy field serializer
         s = tg.tree()
+        if case % 5 == 2:
+            # an origin object made of the two placeholders (not the NoOrigin singleton): an object like any other
+            s.origin = ("nsnp",)
+            ctx.count("origin_object_made_of_placeholders")
         if case % 3 == 1:
             # the origins carry their own source objects, equal to (but other objects than) the registered ones
             root = build(U, s, origin_fn=lambda sp: O.build_origin(sp.origin, src=O.fresh_source))
@@ -323,6 +327,20 @@ def run_shard(ctx):
                 bad("dialect-leaked", "a call without dialect after a call with one gives another output", options=odesc(opts, None))
             after_call({"call": "as_dict", "options": odesc(opts, None) + ["mashumaro_dialect=omit_none"]}, False)
         # ---------------- successful calls with every option subset + shape walk
+        if case % 3 == 1:
+            # a dump of sources from elsewhere (a part of this process's sources, in another order, and unknown ones) was
+            # loaded before: the sources of the live tree stay listed, under the indices they had
+            before_idx = dict(Source._sources)
+            dump = [d for d in Source.all_as_dict() if "sources" not in d]
+            part = list(reversed(dump[: max(1, len(dump) // 2)])) + [dict(dump[0], source_uri=f"foreign://c16/{case}")]
+            try:
+                Source.load_serialized_sources(part)
+            except Exception as e:  # noqa: BLE001
+                bad("load-sources-raised", f"load_serialized_sources raised {type(e).__name__}: {e}"[:200])
+            ctx.count("source_dump_loaded_before_calls")
+            moved = [str(k)[:60] for k, v in before_idx.items() if Source._sources.get(k) != v]
+            if moved:
+                bad("index-source", "loading a dump of sources changed the index of (or dropped) sources that were already listed", moved=moved[:4])
         for opts, md in chosen:
             ctx.count("option_subsets")
             if any(v is False for v in opts.values()):
